@@ -604,3 +604,165 @@ pub proof fn lemma_cover_none_chain<P: Prefix, T>(t: Seq<Node<P, T>>, q: Seq<boo
         assert(pending(t, tlive(t), i1, q, m) == pending(t, tlive(t), i0, q, m));
     }
 }
+
+// ---- consuming iteration (IntoIter owns the arena and empties the nodes it yields) ----
+
+/// t is the arena t0 in which only nodes that are no longer covered by the stack may have been emptied
+pub open spec fn into_rel<P: Prefix, T>(t0: Seq<Node<P, T>>, t: Seq<Node<P, T>>, st: Seq<usize>) -> bool {
+    twf(t0) && t.len() == t0.len() && stack_ok(t0, tlive(t0), st)
+        && (forall|n: int| #![trigger t[n]] tlive(t0).contains(n) && covered(t0, st, n) ==> t[n] == t0[n])
+}
+
+/// [C03] one call of IntoIter::next, relative to any original arena t0 that the state is related to
+pub open spec fn into_next_spec<P: Prefix, T>(t0: Seq<Node<P, T>>, st0: Seq<usize>, st1: Seq<usize>, r: Option<(P, T)>) -> bool {
+    let live = tlive(t0);
+    match r {
+        Some(e) => exists|n: int| #[trigger] yields(t0, live, st0, st1, n) && e.0 == t0[n].prefix && e.1 == t0[n].value.unwrap(),
+        None => (forall|m: int| !#[trigger] remaining(t0, live, st0, m)) && st1.len() == 0,
+    }
+}
+
+/// one loop iteration of IntoIter::next for a fixed original arena
+pub proof fn lemma_into_iter<P: Prefix, T>(t0: Seq<Node<P, T>>, st_entry: Seq<usize>, t: Seq<Node<P, T>>, st: Seq<usize>, t2: Seq<Node<P, T>>, st2: Seq<usize>)
+    requires
+        into_rel(t0, t, st), skipped_only(t0, tlive(t0), st_entry, st), st.len() > 0,
+        st2 =~= next_stack(t, st),
+        t2.len() == t.len(),
+        forall|j: int| #![trigger t2[j]] 0 <= j < t.len() && j != st.last() ==> t2[j] == t[j],
+    ensures
+        st.last() < t.len(),
+        t[st.last() as int] == t0[st.last() as int],
+        into_rel(t0, t2, st2),
+        t0[st.last() as int].value.is_some() ==> yields(t0, tlive(t0), st_entry, st2, st.last() as int),
+        t0[st.last() as int].value.is_none() ==> skipped_only(t0, tlive(t0), st_entry, st2),
+        0 <= cov_cnt(t0, tlive(t0), st2, t0.len() as int) < cov_cnt(t0, tlive(t0), st, t0.len() as int),
+{
+    let live = tlive(t0);
+    let cur = st.last() as int;
+    lemma_twf(t0);
+    assert(live.contains(cur) && covered(t0, st, cur)) by {
+        reveal(stack_ok);
+        assert(live.contains(st[st.len() - 1] as int));
+        lemma_pre_refl(kb(t0, cur));
+        assert(pre(kb(t0, st[st.len() - 1] as int), kb(t0, cur)));
+    }
+    assert(t[cur] == t0[cur]);
+    assert(st2 =~= next_stack(t0, st));
+    lemma_next_iter(t0, st_entry, st, st2);
+    lemma_walk_step(t0, live, st, st2);
+    assert forall|n: int| #![trigger t2[n]] live.contains(n) && covered(t0, st2, n) implies t2[n] == t0[n] by {
+        assert(covered(t0, st2, n) == (covered(t0, st, n) && n != cur));
+        assert(t2[n] == t[n]);
+    }
+}
+
+/// index bound of the node about to be visited
+pub proof fn lemma_into_pre<P: Prefix, T>(t0: Seq<Node<P, T>>, t: Seq<Node<P, T>>, st: Seq<usize>)
+    requires into_rel(t0, t, st), st.len() > 0
+    ensures st.last() < t.len(), t[st.last() as int] == t0[st.last() as int]
+{
+    let live = tlive(t0);
+    let cur = st.last() as int;
+    lemma_twf(t0);
+    reveal(stack_ok);
+    assert(live.contains(st[st.len() - 1] as int));
+    lemma_pre_refl(kb(t0, cur));
+    assert(pre(kb(t0, st[st.len() - 1] as int), kb(t0, cur)));
+    assert(covered(t0, st, cur));
+}
+
+pub open spec fn arena_upd<P: Prefix, T>(t: Seq<Node<P, T>>, t2: Seq<Node<P, T>>, cur: int) -> bool {
+    t2.len() == t.len() && (forall|j: int| #![trigger t2[j]] 0 <= j < t.len() && j != cur ==> t2[j] == t[j])
+}
+
+/// lemma_into_iter for every related original arena and every arena that differs from `t` only at the popped node;
+/// stated before the node is borrowed mutably, used when the borrow ends
+pub proof fn lemma_into_all<P: Prefix, T>(st_entry: Seq<usize>, t: Seq<Node<P, T>>, st: Seq<usize>)
+    requires st.len() > 0
+    ensures
+        forall|t0: Seq<Node<P, T>>, t2: Seq<Node<P, T>>, st2: Seq<usize>|
+            into_rel(t0, t, st) && skipped_only(t0, tlive(t0), st_entry, st) && arena_upd(t, t2, st.last() as int) && st2 =~= next_stack(t, st)
+            ==> #[trigger] into_rel(t0, t2, st2)
+                && (t0[st.last() as int].value.is_some() ==> yields(t0, tlive(t0), st_entry, st2, st.last() as int))
+                && (t0[st.last() as int].value.is_none() ==> skipped_only(t0, tlive(t0), st_entry, st2))
+                && t[st.last() as int] == t0[st.last() as int],
+{
+    assert forall|t0: Seq<Node<P, T>>, t2: Seq<Node<P, T>>, st2: Seq<usize>|
+            into_rel(t0, t, st) && skipped_only(t0, tlive(t0), st_entry, st) && arena_upd(t, t2, st.last() as int) && st2 =~= next_stack(t, st)
+            implies #[trigger] into_rel(t0, t2, st2)
+                && (t0[st.last() as int].value.is_some() ==> yields(t0, tlive(t0), st_entry, st2, st.last() as int))
+                && (t0[st.last() as int].value.is_none() ==> skipped_only(t0, tlive(t0), st_entry, st2))
+                && t[st.last() as int] == t0[st.last() as int] by {
+        lemma_into_iter(t0, st_entry, t, st, t2, st2);
+    }
+}
+
+/// a consuming traversal of the whole arena starting at `start`
+pub proof fn lemma_into_from<P: Prefix, T>(t: Seq<Node<P, T>>, st: Seq<usize>)
+    requires twf(t), st.len() <= 1, st.len() == 1 ==> tlive(t).contains(st[0] as int)
+    ensures into_rel(t, t, st)
+{
+    lemma_stack_single(t, tlive(t), st);
+}
+
+// ---- composition: from the step contract of `next` to the statement of C03 ----
+
+/// ys are the entries yielded by successive calls of next() (stack states sts), after which next() returned None
+pub open spec fn yield_run<P: Prefix, T>(t: Seq<Node<P, T>>, live: ISet<int>, sts: Seq<Seq<usize>>, ys: Seq<int>) -> bool {
+    sts.len() == ys.len() + 1
+        && (forall|i: int| 0 <= i < ys.len() ==> #[trigger] yields(t, live, sts[i], sts[i + 1], ys[i]))
+        && (forall|m: int| !#[trigger] remaining(t, live, sts[sts.len() - 1], m))
+}
+
+/// every entry remaining at step k is yielded at some later position, and the yields from k on are ascending
+pub proof fn lemma_yield_run<P: Prefix, T>(t: Seq<Node<P, T>>, live: ISet<int>, sts: Seq<Seq<usize>>, ys: Seq<int>, k: int)
+    requires yield_run(t, live, sts, ys), 0 <= k <= ys.len()
+    ensures
+        forall|m: int| #[trigger] remaining(t, live, sts[k], m) <==> (exists|i: int| k <= i < ys.len() && ys[i] == m),
+        forall|i: int, j: int| k <= i < j < ys.len() ==> lex_lt(kb(t, #[trigger] ys[i]), kb(t, #[trigger] ys[j])),
+    decreases ys.len() - k
+{
+    if k < ys.len() {
+        lemma_yield_run(t, live, sts, ys, k + 1);
+        assert(yields(t, live, sts[k], sts[k + 1], ys[k]));
+        assert forall|m: int| #[trigger] remaining(t, live, sts[k], m) <==> (exists|i: int| k <= i < ys.len() && ys[i] == m) by {
+            assert(remaining(t, live, sts[k + 1], m) == (remaining(t, live, sts[k], m) && m != ys[k]));
+            if remaining(t, live, sts[k], m) && m != ys[k] {
+                let i = choose|i: int| k + 1 <= i < ys.len() && ys[i] == m;
+                assert(k <= i < ys.len() && ys[i] == m);
+            }
+            if exists|i: int| k <= i < ys.len() && ys[i] == m {
+                let i = choose|i: int| k <= i < ys.len() && ys[i] == m;
+                if i > k {
+                    assert(k + 1 <= i < ys.len() && ys[i] == m);
+                    assert(remaining(t, live, sts[k + 1], m));
+                }
+            }
+        }
+        assert forall|i: int, j: int| k <= i < j < ys.len() implies lex_lt(kb(t, #[trigger] ys[i]), kb(t, #[trigger] ys[j])) by {
+            if i == k {
+                assert(k + 1 <= j < ys.len() && ys[j] == ys[j]);
+                assert(remaining(t, live, sts[k + 1], ys[j]));
+                assert(remaining(t, live, sts[k], ys[j]) && ys[j] != ys[k]);
+            }
+        }
+    } else {
+        assert(sts[k] == sts[sts.len() - 1]);
+        assert forall|m: int| #[trigger] remaining(t, live, sts[k], m) <==> (exists|i: int| k <= i < ys.len() && ys[i] == m) by {
+            assert(!remaining(t, live, sts[sts.len() - 1], m));
+        }
+    }
+}
+
+/// [C03] a complete run yields exactly the entries that remained at the start, each once, in ascending lexicographic order
+pub proof fn lemma_c03<P: Prefix, T>(t: Seq<Node<P, T>>, live: ISet<int>, sts: Seq<Seq<usize>>, ys: Seq<int>)
+    requires yield_run(t, live, sts, ys)
+    ensures
+        forall|m: int| #[trigger] remaining(t, live, sts[0], m) <==> (exists|i: int| 0 <= i < ys.len() && ys[i] == m),
+        forall|i: int, j: int| 0 <= i < j < ys.len() ==> lex_lt(kb(t, #[trigger] ys[i]), kb(t, #[trigger] ys[j])) && ys[i] != ys[j],
+{
+    lemma_yield_run(t, live, sts, ys, 0);
+    assert forall|i: int, j: int| 0 <= i < j < ys.len() implies lex_lt(kb(t, #[trigger] ys[i]), kb(t, #[trigger] ys[j])) && ys[i] != ys[j] by {
+        lemma_lex_irrefl(kb(t, ys[i]));
+    }
+}
